@@ -2608,18 +2608,21 @@ class AggregateBase(UnitsManaged, Saveable, OpenSystem):
         rho0 = numpy.zeros((dim, dim),dtype=numpy.complex128)
 
 
+        # FIXME: we assume only single exciton band
+
+        ens = numpy.zeros(dim-start, dtype=numpy.float64)
+
+        # we specify the basis from outside. This allows to choose
+        # canonical equilibrium in arbitrary basis
+        for i in range(start, dim):
+            ens[i-start] = numpy.real(HH[i,i] - subtract[i-start])
+
         if temp == 0.0:
-            rho0[start,start] = 1.0
+            # all population is in the state with the lowest energy
+            imin = start + numpy.argmin(ens)
+            rho0[imin,imin] = 1.0
 
         else:
-            # FIXME: we assume only single exciton band
-
-            ens = numpy.zeros(dim-start, dtype=numpy.float64)
-
-            # we specify the basis from outside. This allows to choose
-            # canonical equilibrium in arbitrary basis
-            for i in range(start, dim):
-                ens[i-start] = numpy.real(HH[i,i] - subtract[i-start])
 
             # energies are counted from the lowest one: the largest Boltzmann
             # factor is then exactly 1 and the sum cannot underflow to zero
